@@ -496,7 +496,7 @@ def gen_dag(rng, pool, n, shape=None, ts=None, hostile=False):
                 parents = [commits[-1]]
         elif shape == "octopus":
             if i == n - 1 or rng.random() < 0.15:
-                parents = rng.sample(commits, min(len(commits), rng.randint(2, 12)))
+                parents = rng.sample(commits, min(len(commits), rng.choice([2, 3, 5, 8, 12, 31, 64, 70, 130, 300])))
             else:
                 parents = [rng.choice(commits)]
         elif shape == "multiroot":
